@@ -167,6 +167,8 @@ def make_class(name, variant, rec):
 
         def __setattr__(self, k, v):
             counters["set"] += 1
+            if k == "v" and type(v) is int:
+                v = v % 7  # the class's own rule for this attribute: its effect is visible in every finished model
             object.__setattr__(self, k, v)
 
         def __delattr__(self, k):
